@@ -211,6 +211,9 @@ class GC(FileStorageFormatter):
             del self.oid2curpos
         else:
             self.reachable = self.oid2curpos
+            # Revisions that were not current at the pack time, but that
+            # later undo records point back to, have to stay all the same.
+            self.findReachableFromFuture()
 
     def buildPackIndex(self):
         pos = 4
@@ -338,6 +341,9 @@ class GC(FileStorageFormatter):
                           "match initial transaction length: %d != %d",
                           tlen, th.tlen)
             pos += 8
+
+        if not self.gc:
+            return  # everything that existed at the pack time is kept
 
         for pos in extra_roots:
             refs = self.findrefs(pos)
